@@ -330,6 +330,8 @@ class TreeSearch(StructureEstimator):
             Computes the conditional edge weight of variable index u and v conditioned on class_node
             """
             cond_marginal = data.loc[:, class_node].value_counts() / data.shape[0]
+            # Declared but unobserved categories of the class column have no rows to weigh.
+            cond_marginal = cond_marginal[cond_marginal > 0]
             cond_edge_weight = 0
             for index, marg_prob in cond_marginal.items():
                 df_cond_subset = data[data.loc[:, class_node] == index]
